@@ -125,13 +125,13 @@ def parse_output(text):
         if "VERIFICATION:- SUCCESSFUL" in line:
             r["status"] = "success"
         elif "VERIFICATION:- FAILED" in line:
-            r["status"] = "failed"
+            r["status"] = "failed" if r["checks"] > 0 else "error"
         m = RE_TIME.search(line)
         if m:
             r["time"] = float(m.group(1))
         if "CBMC timed out" in line or "timed out" in line.lower():
             r["notes"].append("timeout")
-            if r["status"] == "noresult":
+            if r["status"] in ("noresult", "error"):
                 r["status"] = "timeout"
         if "Status: ERROR" in line or "out of memory" in line.lower() or "CBMC failed" in line:
             r["notes"].append(line.strip()[:200])
@@ -146,6 +146,10 @@ def run_group(prop, cfg, names, fsa=None, unwindset=None, jobs=16, timeout=900, 
     jobs = max(1, min(jobs, len(names)))
     cmd = ["cargo", "kani", "--target-dir", td, "--features", ",".join(feats),
            "-Z", "stubbing", "-Z", "unstable-options", "--exact",
+           # Kani's per-assertion reachability covers make CBMC build a trace per SAT iteration
+           # (measured: 108 s -> 25 s without them); vacuity is guarded by explicit kani::cover!
+           # witnesses in every harness instead.
+           "--no-assertion-reach-checks",
            "--harness-timeout", "%ds" % timeout]
     if jobs > 1:
         cmd += ["-j", str(jobs), "--output-format", "terse"]
@@ -216,7 +220,7 @@ def counterexample(prop, cfg, name, fsa=None, unwindset=None, timeout=1800, log=
     td = target_dir(cfg)
     cmd = ["cargo", "kani", "--target-dir", td, "--features", ",".join([prop.lower()] + list(cfg)),
            "-Z", "stubbing", "-Z", "unstable-options", "--exact", "--harness", name,
-           "--harness-timeout", "%ds" % timeout,
+           "--no-assertion-reach-checks", "--harness-timeout", "%ds" % timeout,
            "-Z", "concrete-playback", "--concrete-playback=print"]
     cbmc = []
     if fsa:
